@@ -97,7 +97,7 @@ impl Prop for C11 {
     }
 
     fn cases(tier: Tier) -> u64 {
-        tier.pick(16_000, 400_000)
+        tier.pick(100_000, 2_000_000)
     }
 
     fn enumerate(tier: Tier) -> Vec<Case> {
